@@ -53,8 +53,12 @@ class Ctx:
         self.tier = tier
         self.seed = seed
         self.t0 = time.time()
-        self.rundir = os.path.join(VERIF, "run", pid)
+        alt = "" if REPO == "/repo" else "@" + hashlib.sha1(REPO.encode()).hexdigest()[:8]
+        self.rundir = os.path.join(VERIF, "run", pid + alt)
         os.makedirs(self.rundir, exist_ok=True)
+        # runs against a scratch tree (VERIF_REPO, used for seeded changes) never touch the real evidence
+        self.evidence_path = (os.path.join(VERIF, "evidence", pid + ".json") if not alt
+                              else os.path.join(self.rundir, "evidence.json"))
         self.log = []
         self.notes = []
 
@@ -75,10 +79,10 @@ def go_test(ctx, module, pkg, overlay, run, env=None, timeout=600, race=False, e
     ov = {"Replace": {}}
     for dst, src in overlay.items():
         ov["Replace"][os.path.join(REPO, module, pkg, dst)] = os.path.join(VERIF, "harness", "go", src)
-    extra = os.environ.get("VERIF_EXTRA_OVERLAY")
-    if extra:
+    xov = os.environ.get("VERIF_EXTRA_OVERLAY")
+    if xov:
         # self-test hook: run a check against a mutated copy of a source file without touching /repo
-        ov["Replace"].update(json.load(open(extra)).get("Replace", {}))
+        ov["Replace"].update(json.load(open(xov)).get("Replace", {}))
     ovp = ctx.path("overlay_%s.json" % hashlib.sha1((module + pkg + run).encode()).hexdigest()[:8])
     with open(ovp, "w") as f:
         json.dump(ov, f)
@@ -416,7 +420,7 @@ def finish(ctx, proof_info, coverage, violations, assumptions, level="proof", tr
     ev = {"property_id": ctx.pid, "tier": ctx.tier, "seed": ctx.seed, "level": level, "coverage": cov,
           "assumptions": list(assumptions), "wall_s": round(time.time() - ctx.t0, 1), "violations": nviol}
     os.makedirs(os.path.join(VERIF, "evidence"), exist_ok=True)
-    with open(os.path.join(VERIF, "evidence", ctx.pid + ".json"), "w") as f:
+    with open(getattr(ctx, "evidence_path", os.path.join(VERIF, "evidence", ctx.pid + ".json")), "w") as f:
         json.dump(ev, f, indent=1)
     print("%s %s: obligations=%s discharged=%s evaluations=%s violations=%d wall=%.1fs" % (
         ctx.pid, ctx.tier, cov.get("obligations"), cov.get("discharged"), cov.get("evaluations"), nviol,
